@@ -19,7 +19,7 @@
    descent, in order, and ends with NULL. *)
 From Coq Require Import ZArith List Bool.
 From BT Require Import Model.RTree Model.TreeSpec Model.TreeRun Proofs.TreeProofs.
-From BT Require Import Model.Persist Model.PersistSpec Model.Chain Model.ChainRun Proofs.ChainProofs.
+From BT Require Import Model.Persist Model.PersistSpec Model.Chain Model.ChainRun Proofs.ChainProofs Proofs.ChainRunProofs.
 Import ListNotations.
 Open Scope Z_scope.
 
@@ -102,6 +102,24 @@ Theorem C03_chain_reachable : forall (vs : bool) (ml mi : nat),
   Inv Z ml mi (p_tree s) /\ ids_ok Z (p_fresh s) (p_tree s) /\ chain_ok Z (p_heap s) (p_tree s).
 Proof. exact ChainProofs.chain_reachable. Qed.
 Print Assumptions C03_chain_reachable.
+
+(* the public API: ChainRun.prims_of lists, for each of the 28 calls, the
+   insertions / deletions / clear it performs (deciding by the model's own
+   membership test where the call does); they rebuild exactly the tree
+   TreeRun.step computes, so after EVERY history of public calls the pointer
+   model realises the tree of C01 / C03_reachable: a walk along firstbucket /
+   next visits exactly the leaves reached by descent, in order *)
+Theorem C03_chain_calls : forall (vs ir : bool) (ml mi : nat),
+  (1 <= ml)%nat -> (2 <= mi)%nat ->
+  forall calls : list call,
+  let sp := api_run vs ir ml mi calls in
+  let s := fst sp in let p := snd sp in
+  s = fst (run vs ir ml mi init calls) /\
+  p_tree p = t_tree s /\
+  chain_ok Z (p_heap p) (t_tree s) /\
+  walk_tree Z (p_heap p) (t_tree s) = leaf_ids Z (t_tree s).
+Proof. exact ChainRunProofs.chain_calls. Qed.
+Print Assumptions C03_chain_calls.
 
 Example C03_chain_example :
   let s := prim_run false 1 2 pinit
